@@ -1,4 +1,4 @@
-import LopdfModel.Thm.StrictHistory
+import LopdfModel.Thm.StrictSaveStream
 import LopdfModel.Thm.FileNorm
 /-
   C03 — the strict-reader theorems for documents WITH real numbers: what the strict reader
